@@ -2099,6 +2099,10 @@ func op_mvn(cpu *CPU) {
 	src := cpu.nRead(cpu.RK, cpu.StepInfo.Addr+1)
 
 	cpu.RDBR = dst
+	if cpu.M == 1 {
+		// the byte count is the full 16-bit C accumulator (B:A) even when A is 8 bits wide
+		cpu.RA = uint16(cpu.RAh)<<8 | uint16(cpu.RAl)
+	}
 	if cpu.X == 1 {
 		cpu.nWrite(dst, uint16(cpu.RYl), cpu.nRead(src, uint16(cpu.RXl)))
 		cpu.RYl++
@@ -2123,6 +2127,10 @@ func op_mvp(cpu *CPU) {
 	src := cpu.nRead(cpu.RK, cpu.StepInfo.Addr+1)
 
 	cpu.RDBR = dst
+	if cpu.M == 1 {
+		// the byte count is the full 16-bit C accumulator (B:A) even when A is 8 bits wide
+		cpu.RA = uint16(cpu.RAh)<<8 | uint16(cpu.RAl)
+	}
 	if cpu.X == 1 {
 		cpu.nWrite(dst, uint16(cpu.RYl), cpu.nRead(src, uint16(cpu.RXl)))
 		cpu.RYl--
